@@ -39,17 +39,40 @@ def gen_world(rng, tier):
         "defaults": False,
         "fieldless": rng.random() < 0.7,
         "short_names": rng.random() < 0.25,
+        "zero_static": rng.random() < 0.45,
         "max_types": rng.choice([3, 5, 8, 12]),
         "min_types": 2,
         "max_depth": rng.choice([2, 3, 4, 6]),
     }
     schema = typegen.gen_schema(rng, sw)
+    # next to an array with a static zero-length axis, the array that has a dynamic axis there, and a
+    # struct that holds both (their generated names differ in one letter)
+    if sw.get("zero_static") and not any(ty["k"] == "array" and 0 in ty["shape"] for ty in schema):
+        scs = [i for i, ty in enumerate(schema) if ty["k"] == "sc"]
+        it = rng.choice(scs)
+        shp = rng.choice([[0], [0], [3, 0], [0, 2]])
+        nm = f"Arr{typegen.sugar_suffix(shp)}{typegen.type_name(schema, it)}"
+        if not any(x.get("name") == nm for x in schema):
+            schema.append({"k": "array", "name": nm, "item": it, "shape": shp, "order": list(range(len(shp))), "decl": "sugar", "order_decl": None})
+    for i, ty in list(enumerate(schema)):
+        if ty["k"] == "array" and ty.get("decl") == "sugar" and 0 in ty["shape"]:
+            shape2 = [None if d == 0 else d for d in ty["shape"]]
+            name2 = f"Arr{typegen.sugar_suffix(shape2)}{typegen.type_name(schema, ty['item'])}"
+            if not any(x.get("name") == name2 for x in schema):
+                schema.append(dict(ty, shape=shape2, name=name2))
+                j = len(schema) - 1
+            else:
+                j = [q for q, x in enumerate(schema) if x.get("name") == name2][0]
+            schema.append({"k": "struct", "name": f"Z{len(schema)}", "fields": [["z0", i], ["z1", j]], "decl": "class"})
     structs = [i for i, ty in enumerate(schema) if ty["k"] == "struct"]
     comp = [i for i, ty in enumerate(schema) if ty["k"] in ("struct", "array", "uref", "ref")]
     depends = []
+    # (declared dependencies are not a privilege of structs: array classes declared with `class`
+    # and unions can carry `_depends_on` as well)
+    holders = [i for i, ty in enumerate(schema) if (ty["k"] == "array" and ty.get("decl") == "class") or ty["k"] == "uref"]
     if structs and rng.random() < 0.7:
         for _ in range(rng.choice([1, 1, 2, 3])):
-            s = rng.choice(structs)
+            s = rng.choice(holders) if holders and rng.random() < 0.3 else rng.choice(structs)
             r = rng.random()
             if r < 0.7:
                 cands = [c for c in comp if c < s]  # forward edge: acyclic
@@ -143,6 +166,9 @@ def gen_op(rng, spec):
     refs = [i for i, ty in enumerate(schema) if ty["k"] == "ref"]
     k = rng.choice([1, 1, 2, 3, 4])
     roots = [rng.choice(api) for _ in range(k)]
+    zs = [i for i in api if schema[i]["k"] == "struct" and schema[i]["name"].startswith("Z")]
+    if zs and rng.random() < 0.5:
+        roots[rng.randrange(len(roots))] = rng.choice(zs)
     if twins and rng.random() < 0.6:
         tw = rng.choice(sorted(twins))
         t1 = schema[tw]["twin_of"]
@@ -184,6 +210,8 @@ def build_classes(spec):
             out.append(_build_one(schema, i, out))
     for s, d in depends:
         if (s, d) not in done:
+            if "_depends_on" not in out[s].__dict__:
+                out[s]._depends_on = []  # (array / union class: same as declaring it in the class body)
             out[s]._depends_on.append(out[d])
     return out
 
@@ -309,6 +337,17 @@ class DepSim:
             res.error = f"harness: class construction failed: {type(e).__name__}: {e}"
             return res
         names = [getattr(c, "__name__", None) for c in classes]
+        # classes are told apart by name everywhere in a build (sorter, include guards, typedefs): two
+        # classes of different shape that get one generated name can never both be emitted once
+        seen_nm = {}
+        for t, ty in enumerate(spec["schema"]):
+            if ty["k"] == "array" and ty.get("decl") == "sugar" and not ty.get("base"):
+                key = (ty["item"], tuple(ty["shape"]))
+                other = seen_nm.setdefault(names[t], key)
+                if other != key and other[0] == key[0]:
+                    res.viols = [Viol("C14", "distinct_array_classes_share_a_generated_name", ["naming"], f"{names[t]}: shapes {other[1]} and {key[1]} (the schema calls the second {ty['name']})")]
+                    res.viol_step = 0
+                    return res
         ctx = xo.ContextCpu(omp_num_threads=spec.get("omp", 0))
         cc = xo.context_cpu
         real_cfk = cc.classes_from_kernels
